@@ -81,7 +81,7 @@ def make_start(rng, lb, ub, mode):
     return np.clip(x, lb, ub)
 
 
-def gen(rng, family, n, box_kinds=None, start=None, cond=None):
+def gen(rng, family, n, box_kinds=None, start=None, cond=None, box_spread=None):
     """Generate one problem of `family`."""
     cond = cond or float(10 ** rng.uniform(0, 4))
     A = _spd(rng, n, cond)
@@ -161,7 +161,7 @@ def gen(rng, family, n, box_kinds=None, start=None, cond=None):
         c = np.zeros(n)
     else:
         raise ValueError(family)
-    lb, ub, ks = make_box(rng, n, c, kinds=box_kinds)
+    lb, ub, ks = make_box(rng, n, c, kinds=box_kinds, spread=box_spread or 2.0)
     mode = start or ["interior", "face", "vertex"][rng.integers(3)]
     x0 = make_start(rng, lb, ub, mode)
     if family == "ackley" and np.all(x0 == 0):
